@@ -22,6 +22,7 @@ func propC02(r *Report, tier string) {
 	ruleUnionConsumesAllCollections(r, "K14-union-consumes-all-inputs", "index/scorch.(*OptimizeTFRDisjunctionUnadorned).Finish", "IndexSnapshotTermFieldReader", "iterators")
 	ruleNilActualBitmapIsNotEmpty(r, "K6-nil-actual-bitmap-is-not-empty")
 	rulePooledLocationsDeepCopied(r, "K6-pooled-locations-deep-copied")
+	rulePooledMatchResetIsTotal(r, "K9b-pooled-match-reset-total")
 	ruleHeapRestoredBeforePeek(r, "K5-heap-restored-before-peek")
 	ruleOptimisedDisjunctionKeepsMin(r, "K12-optimised-disjunction-keeps-min")
 	ruleSearcherCountIsAnEstimate(r, "K7-searcher-count-is-an-estimate")
